@@ -137,7 +137,7 @@ def _explore(scn, prefix, K, res, stats, cap, runner=None, confirm=None):
         res.outcomes.add(core.digest((scn.name, x.outcome)))
         res.signatures.add(core.digest((scn.name, tuple(c[1] for c in x.choices if True))))
         if x.violations:
-            if any(v.sig not in res.violations for v in x.violations):
+            if any(v.sig not in res.violations and v.sig not in _CONFIRMED for v in x.violations):
                 try:
                     y = confirm(scn, x.choices, want_digests=False)
                 except Divergence:
@@ -147,6 +147,7 @@ def _explore(scn, prefix, K, res, stats, cap, runner=None, confirm=None):
                         raise HarnessFault("non-deterministic replay of a violating schedule in %s: %r" % (scn.name, x.choices))
                     raise NotIndependent("a violating schedule of %s runs differently in an interpreter that has executed nothing before" % scn.name,
                                          x.choices)
+            _CONFIRMED.update(v.sig for v in x.violations)
             for v in x.violations:
                 v["case"] = core.jsonable({"scenario": scn.name, "params": scn.params, "choices": x.choices})
                 v["scenario"] = scn.name
@@ -299,11 +300,15 @@ def _across_contexts(z, scn, choices):
     return second, [TWICE] + list(choices)
 
 
+_CONFIRMED = set()        # violation signatures this worker process has already seen reproduced in a pristine interpreter
+_WORKER_ZYGOTE = []       # one pristine interpreter per worker process, shared by its jobs (it never executes anything itself)
+
+
 def explore_job(arg):
     scn, prefix, K, cap = arg
     res = Result()
     stats = {"execs": 0}
-    z = []
+    z = _WORKER_ZYGOTE
 
     def confirm(scn, choices, want_digests=False):
         if not z:
@@ -340,8 +345,7 @@ def explore_job(arg):
                     v["trace"] = x.trace[-60:]
                     res.violate(v)
     finally:
-        for zz in z:
-            zz.close()
+        pass        # (the pristine interpreter ends when this worker's end closes its input)
     res.scenarios[scn.name] = {"executions": stats["execs"], "K": K}
     if stats.get("isolated"):
         res.scenarios[scn.name]["isolated_executions"] = stats["isolated"]
